@@ -81,9 +81,9 @@ CHECKS = {
         "assumptions": [SIM, ZERO],
     },
     "C15": {
-        "level": "exploration", "lanes": [("hist", hist("C15"))],
-        "rule": HRULE + "; oracle posts keyed by (operation, rate regime before, rate regime after), with and without an oracle",
-        "require": ["op:liquid_stake:ok", "op:submit_batch:ok", "op:hook:receive_rewards:ok", "op:resume_contract:ok"],
+        "level": "exploration", "lanes": [("optional", lane("c15diff", {"histories": 12, "steps": 200}, {"histories": 100000000, "steps": 600})), ("hist", hist("C15"))],
+        "rule": "optional lane: the same operation trace (prologue + random) is applied to two deployments that differ only in oracle_address (Some / None); outcome, totals, batches, queue, all ledgers and all effects other than the oracle call must agree step by step, and the oracle-less deployment must dispatch no contract call. hist lane: " + HRULE + "; oracle posts keyed by (operation, rate regime before, rate regime after), with and without an oracle",
+        "require": ["op:liquid_stake:ok", "op:submit_batch:ok", "op:hook:receive_rewards:ok", "op:resume_contract:ok", "c15diff:histories"],
         "assumptions": [SIM],
     },
     "C04": {
